@@ -321,6 +321,26 @@ int cmd_gssvx(const case_t *c)
     size_t nb = (size_t)S.ldb * (nrhs > 0 ? nrhs : 1) + 1, nx = (size_t)S.ldx * (nrhs > 0 ? nrhs : 1) + 1;
     S.b = xmalloc(nb * sizeof(elem_t)); S.b0 = xmalloc(nb * sizeof(elem_t)); S.x = xmalloc(nx * sizeof(elem_t));
     gen_rhs(&rng, n, nrhs, S.ldb, S.b, cstr(c, "rhs", "generic"));
+    if (!strcmp(cstr(c, "rhs", "generic"), "xsparse")) {
+        /* B = op(A) * Xt for an integer Xt with many exactly zero components (exact in every precision for the
+           integer matrices this is used with) */
+        int op0 = opcode(S.nr, (int)cint(c, "trans", 0));
+        ref_t *xt = xmalloc((n + 1) * sizeof(ref_t)), *yt = xmalloc((n + 1) * sizeof(ref_t));
+        for (int_t j = 0; j < nrhs; ++j) {
+            for (int_t i = 0; i < n; ++i) {
+                long v = rng_int(&rng, 5) < 2 ? 0 : (long)rng_int(&rng, 7) - 3;
+#if IS_COMPLEX
+                long w = rng_int(&rng, 5) < 3 ? 0 : (long)rng_int(&rng, 5) - 2;
+                xt[i] = (ld)v + (ld)(v == 0 ? 0 : w) * CI;
+#else
+                xt[i] = (ld)v;
+#endif
+            }
+            op_apply(S.Gd0, n, op0, xt, yt, NULL);
+            for (int_t i = 0; i < n; ++i) S.b[(size_t)j * S.ldb + i] = R2E(yt[i]);
+        }
+        free(xt); free(yt);
+    }
     memcpy(S.b0, S.b, (size_t)S.ldb * nrhs * sizeof(elem_t));
     for (size_t i = 0; i < nx; ++i) S.x[i] = MKE(XSENT_RE, XSENT_IM);
     S.R = xmalloc((n + 1) * sizeof(real_t)); S.C = xmalloc((n + 1) * sizeof(real_t));
